@@ -576,7 +576,19 @@ pub fn exec_case(case: &Case, out: &mut Out) -> (Sx, Sx, Vec<(Res, Vec<u8>)>) {
     let mut res_sx = vec![];
     let mut raw = vec![];
     for call in &case.calls {
+        let ms = |t: SystemTime| t.duration_since(UNIX_EPOCH).map(|d| d.as_millis()).unwrap_or(0);
+        let t_before = ms(SystemTime::now());
         let (res, bytes) = exec_call(&mut f, call);
+        let t_after = ms(SystemTime::now());
+        // an entry without a timestamp is stamped with the wall clock: the model takes what was printed as its
+        // `now`, so the window in which the call ran is checked here
+        if !has_timestamp(&call.items) && !bytes.is_empty() && bytes.contains(&b'\n') {
+            let now = first_timestamp(&bytes);
+            if now + 1 < t_before || now > t_after + 1 {
+                out.fail(format!("entry without timestamp stamped {now} ms, but the call ran between {t_before} and {t_after} ms since the epoch"),
+                         &Sx::L(vec![enc_config(&case.cfg), Sx::L(vec![enc_call(call, now, &float_table(&call.items))]), sx::boolean(case.sorted)]));
+            }
+        }
         let ftab = float_table(&call.items);
         for (b, t) in &ftab {
             if !check_float_text(*b, t) {
